@@ -105,6 +105,10 @@ def values_of(kind, n, form, case=None):
 def _values_of(kind, n, form):
     # further ways of writing a value list (pyxel.evaluator.eval_range): a Python expression given as text
     # ("[1, 2]" / "range(..)" / a tuple in text), a tuple object, a bare number for a one-element list
+    if form == "strelems":
+        # a list whose ELEMENTS are text ('1e3'-like numbers arrive like this from a YAML file): each denotes its number
+        vals, _ = _values_of(kind, n, "lit")
+        return vals, [repr(v) for v in vals]
     if form in ("strlist", "strtuple", "tuple"):
         vals, _ = _values_of(kind, n, "lit")
         if form == "strlist":
@@ -177,6 +181,8 @@ def forms_of(kind, n=None):
     if KINDS[kind][2]:
         return ("lit",)
     out = ("lit", "nparray", "nprange", "strlist", "strtuple", "tuple")
+    if kind in ("A1", "B1", "A2", "T"):
+        out += ("strelems",)
     if kind in ("T", "A1", "A2"):
         out += ("strrange",)
     return out
